@@ -7,7 +7,24 @@ use std::process::{Command, Stdio};
 use std::sync::mpsc;
 use std::time::{Duration, Instant};
 
-pub const VERIF_DIR: &str = "/verif";
+/// The verification directory this binary belongs to: <dir>/sim/target/release/simcheck => <dir>
+/// (so that a copy or snapshot of /verif reads its own known_findings.json and writes its own
+/// evidence and replays); /verif when the layout is not recognised.
+pub fn verif_dir() -> String {
+    if let Ok(d) = std::env::var("VERIF_DIR") {
+        if !d.is_empty() {
+            return d;
+        }
+    }
+    if let Ok(exe) = std::env::current_exe() {
+        if let Some(d) = exe.ancestors().nth(4) {
+            if d.join("known_findings.json").exists() && d.join("sim").is_dir() {
+                return d.to_string_lossy().into_owned();
+            }
+        }
+    }
+    "/verif".to_string()
+}
 
 fn pin_to_cpu(cpu: usize) {
     unsafe {
@@ -329,7 +346,7 @@ pub struct Known {
 }
 
 pub fn load_known() -> Vec<Known> {
-    let p = format!("{}/known_findings.json", VERIF_DIR);
+    let p = format!("{}/known_findings.json", verif_dir());
     let txt = match std::fs::read_to_string(&p) {
         Ok(t) => t,
         Err(_) => return Vec::new(),
@@ -564,7 +581,7 @@ pub fn run_main(scn: &dyn Scenario, thorough: bool, seed: u64, workers: usize) -
             new_keys.insert(key, v.clone());
         }
     }
-    let replay_dir = format!("{}/replays", VERIF_DIR);
+    let replay_dir = format!("{}/replays", verif_dir());
     let _ = std::fs::create_dir_all(&replay_dir);
     let mut reported_violations = 0;
     for (n, (key, v)) in new_keys.iter().enumerate() {
@@ -688,7 +705,7 @@ pub fn run_main(scn: &dyn Scenario, thorough: bool, seed: u64, workers: usize) -
         "wall_s": wall,
         "violations": reported_violations,
     });
-    let evdir = format!("{}/evidence", VERIF_DIR);
+    let evdir = format!("{}/evidence", verif_dir());
     let _ = std::fs::create_dir_all(&evdir);
     if evaluations > 0 {
         std::fs::write(format!("{}/{}.json", evdir, prop), serde_json::to_string_pretty(&ev).unwrap()).expect("write evidence");
